@@ -171,23 +171,23 @@ def cases(ctx):
     for kind in ('translation', 'rot_axis', 'rot_euler', 'rot_mat'):
         for sk in ('all', 'chain', 'chains_all', 'single', 'name', 'resrange', 'no_chain', 'rowlist'):
             for angles in ('generic', 'halfpi'):
-                for _ in range(ctx.scale(2, 6)):
+                for _ in range(ctx.scale(2, 30)):
                     out.append(seq_case(1, angles, f'single-{angles}', [kind], [sk]))
-    for _ in range(ctx.scale(200, 1500)):
+    for _ in range(ctx.scale(200, 8000)):
         out.append(seq_case(rng.randint(2, 5), rng.choice(['generic', 'generic', 'halfpi']), 'composition'))
     for kind in ('translation', 'rot_axis', 'rot_euler', 'rot_mat'):
         for _ in range(ctx.scale(2, 10)):
             out.append(seq_case(1, 'generic', 'empty-selection', [kind], ['empty']))
             out.append(seq_case(2, 'generic', 'empty-selection-second', [rng.choice(['translation', 'rot_axis']), kind], ['all', 'empty']))
     # xyz-level functions with explicit centres
-    for _ in range(ctx.scale(150, 1000)):
+    for _ in range(ctx.scale(150, 5000)):
         n = rng.choice([1, 2, 5, 20])
         X = [[round(rng.uniform(-80, 80), 3) for _ in range(3)] for _ in range(n)]
         st = make_step(rng, g, rng.choice(['rot_axis', 'rot_euler', 'rot_mat']), rng.choice(['generic', 'halfpi']))
         ck = rng.choice(['none', 'list', 'array', 'origin'])
         center = None if ck == 'none' else ([0.0, 0.0, 0.0] if ck == 'origin' else [round(rng.uniform(-30, 30), 3) for _ in range(3)])
         out.append({'op': 'rotate_xyz', 'X': X, 'step': st, 'center': center, 'center_kind': ck, 'family': 'xyz-' + ck})
-    for seed in [0, 1, 2, 3, 7, 42, 2**31 - 1] + [rng.randrange(2**32) for _ in range(ctx.scale(20, 500))]:
+    for seed in [0, 1, 2, 3, 7, 42, 2**31 - 1] + [rng.randrange(2**32) for _ in range(ctx.scale(20, 2000))]:
         out.append({'op': 'axis_angle', 'seed': seed, 'family': 'random-axis'})
     return out
 
@@ -401,7 +401,7 @@ def extra_checks(ctx):
     res = []
     bad_inv = bad_iso = None
     n_inv = 0
-    for _ in range(ctx.scale(200, 1200)):
+    for _ in range(ctx.scale(200, 6000)):
         lines = make_lines(rng, rng.choice([4, 8, 13]))
         db = pdb2sql(lines)
         rows0 = db.get('*')
